@@ -227,3 +227,66 @@ Proof.
   intros x Hx Hy. apply elem_of_list_singleton in Hy as ->.
   apply elem_of_cons in Hx as [->|Hx]; [done|]. apply elem_of_list_singleton in Hx as ->. done.
 Qed.
+
+(* ------------------------------------------------------------------ run-time errors are stable *)
+(* a choice that is a run-time error stays the same run-time error after an independent step: the
+   side condition for the `I_err` hypothesis of Determinism.v *)
+Definition indep_read (md : exec_mode) (D : tenv) (c : config) (a b : choice) : Prop :=
+  movers a ## movers b /\
+  (forall q, q ∈ movers a -> is_Some (procs c !! q)) /\
+  (forall k, k ∈ reads md D c a -> is_Some (chans c !! k) /\ k ∉ footprint_ch md D c b).
+
+Theorem error_stable md D F c a b w e c' :
+  ns_ok c -> indep_read md D c a b ->
+  step md D F c a = SError w e -> step md D F c b = SStep c' -> step md D F c' a = SError w e.
+Proof.
+  intros Hns (Hmov & Hex & Hrd) Ha Hb.
+  assert (Hm : move_of md D F c' a = move_of md D F c a).
+  { eapply (step_frame_other md D F c b c' a Hns Hb); [|done|done].
+    intros x Hx Hy. exact (Hmov x Hy Hx). }
+  rewrite step_move in Ha |- *. rewrite Hm. by destruct (move_of md D F c a).
+Qed.
+
+(* ------------------------------------------------------------------ a local sufficient condition *)
+(* "Topo + Dual", in the form the diamond uses them, for the asynchronous mode: among the next
+   actions of the live processes every channel has at most one sender and at most one receiver
+   (a sender and a receiver on the same channel are allowed: they are never both enabled), and the
+   providers a process closes on a forward request exist and are touched by nobody else. *)
+Definition is_send_on (a : action) (k : cid) : Prop := exists m, a = ASend k m.
+Definition is_recv_on (a : action) (k : cid) : Prop := a = ARecv k.
+
+Definition async_discipline (D : tenv) (c : config) : Prop :=
+  forall p q pp qq, p ≠ q -> procs c !! p = Some pp -> procs c !! q = Some qq ->
+    (forall k, ~ (is_send_on (action_of Async D pp) k /\ is_send_on (action_of Async D qq) k)) /\
+    (forall k, ~ (is_recv_on (action_of Async D pp) k /\ is_recv_on (action_of Async D qq) k)) /\
+    closes Async D c (Run p) ## footprint Async D c q /\
+    (forall k, k ∈ closes Async D c (Run p) -> is_Some (chans c !! k)).
+
+Theorem async_discipline_indep D F c a b c1 c2 :
+  async_discipline D c -> a ≠ b ->
+  step Async D F c a = SStep c1 -> step Async D F c b = SStep c2 -> indep Async D c a b.
+Proof.
+  intros Hd Hab Ha Hb.
+  destruct a as [p|s r|f t]; [|by cbn in Ha|by cbn in Ha]. destruct b as [q|s r|f t]; [|by cbn in Hb|by cbn in Hb].
+  assert (Hpq : p ≠ q) by congruence.
+  destruct (procs c !! p) as [pp|] eqn:Ep; [|by cbn in Ha; rewrite Ep in Ha].
+  destruct (procs c !! q) as [qq|] eqn:Eq; [|by cbn in Hb; rewrite Eq in Hb].
+  destruct (Hd p q pp qq Hpq Ep Eq) as (Hss & Hrr & Hcp & Hep).
+  destruct (Hd q p qq pp (not_eq_sym Hpq) Eq Ep) as (_ & _ & Hcq & Heq).
+  split; [|split].
+  - cbn. intros x Hx Hy. apply elem_of_list_singleton in Hx, Hy. congruence.
+  - unfold footprint_ch. intros k Hk1 Hk2. apply elem_of_app in Hk1 as [Hk1|Hk1].
+    + apply elem_of_app in Hk2 as [Hk2|Hk2].
+      * (* both act on k *)
+        cbn [reads] in Hk1, Hk2. rewrite Ep in Hk1. rewrite Eq in Hk2.
+        destruct (action_of Async D pp) as [| |k1 m1|k1| |k1 pv1|w1] eqn:Eap; cbn in Hk1; try by apply elem_of_nil in Hk1.
+        all: destruct (action_of Async D qq) as [| |k2 m2|k2| |k2 pv2|w2] eqn:Eaq; cbn in Hk2; try by apply elem_of_nil in Hk2.
+        all: apply elem_of_list_singleton in Hk1 as ->; apply elem_of_list_singleton in Hk2 as ->.
+        -- apply (Hss k2). split; eexists; eauto. 
+        -- eapply (async_send_recv_exclusive D F c p q pp qq k2 m1); eauto.
+        -- eapply (async_send_recv_exclusive D F c q p qq pp k2 m2); eauto.
+        -- apply (Hrr k2). by split.
+      * apply (Hcq k Hk2). unfold footprint, footprint_ch. apply elem_of_app. by left.
+    + apply (Hcp k Hk1). exact Hk2.
+  - intros k Hk. apply elem_of_app in Hk as [Hk|Hk]; [by apply Hep|by apply Heq].
+Qed.
